@@ -823,3 +823,50 @@ func vpC17_O9() {
 	}
 	vpAssert("an exponentiation proof with an altered part fails the structure check", !es.verifyProofStructure(challenge, proof))
 }
+
+func init() {
+	vpHarnesses["vpC17_O10"] = vpC17_O10
+}
+
+// C17-O10: the structure check of a primality proof looks at every part: the
+// library's simulated proof passes for an arbitrary challenge; after one
+// alteration (a nil leaf of any Pedersen proof or response, a missing OR
+// challenge, OR challenges that do not XOR to the challenge, a damaged range
+// proof, a damaged part of either exponentiation proof) the check fails.
+func vpC17_O10() {
+	g := vpGroup()
+	ps := newPrimeProofStructure("pprime", 3)
+	challenge := vpBigBits("challenge", 256)
+	proof := ps.fakeProof(g, challenge)
+	vpAssert("a complete primality proof passes the structure check", ps.verifyProofStructure(challenge, proof))
+	d := vpBigRange("delta", big.NewInt(1), new(big.Int).Lsh(big.NewInt(1), 200))
+	peds := []*PedersenProof{&proof.HalfPCommit, &proof.PreaCommit, &proof.ACommit, &proof.AnegCommit, &proof.AResCommit, &proof.AnegResCommit}
+	leaves := []*Proof{&proof.PreaMod, &proof.PreaHider, &proof.APlus1, &proof.AMin1}
+	ranges := []*RangeProof{&proof.PreaRangeProof, &proof.ARangeProof, &proof.AnegRangeProof, &proof.PreaModRangeProof}
+	switch vpChoose("part", 10) {
+	case 0:
+		peds[vpChoose("which", len(peds))].Commit = nil
+	case 1:
+		peds[vpChoose("which", len(peds))].Hresult.Result = nil
+	case 2:
+		leaves[vpChoose("which", len(leaves))].Result = nil
+	case 3:
+		proof.APlus1Challenge = nil
+	case 4:
+		proof.AMin1Challenge = vpAddBig(proof.AMin1Challenge, d)
+	case 5:
+		r := ranges[vpChoose("which", len(ranges))]
+		for name := range r.Results {
+			r.Results[name] = r.Results[name][:rangeProofIters-1]
+		}
+	case 6:
+		ranges[vpChoose("which", len(ranges))].Results = nil
+	case 7:
+		proof.AExpProof.InterStepsProofs[vpChoose("step", 3)].Bchallenge = nil
+	case 8:
+		proof.AnegExpProof.ExpBitProofs[vpChoose("step", 3)].Commit = nil
+	case 9:
+		proof.AnegExpProof.InterStepsProofs[vpChoose("step", 3)].Achallenge = vpAddBig(proof.AnegExpProof.InterStepsProofs[vpChoose("step", 3)].Achallenge, d)
+	}
+	vpAssert("a primality proof with an altered part fails the structure check", !ps.verifyProofStructure(challenge, proof))
+}
